@@ -113,11 +113,13 @@ CLAIMED["C12"] = dict(
    text="Machine-checked proof (Coq), partial: for every builtin target and every source value, what converts under no_data_loss "
         "converts identically without it (C12_no_data_loss_only_restricts) and what converts under no_explicit_cast converts without it "
         "to the same value / an equal Decimal (C12_no_explicit_cast_only_restricts); under no_data_loss a float/Decimal becomes an int "
-        "only with its value preserved, only unambiguous booleans become bool, multi-element collections never collapse; under "
+        "only with its value preserved, only unambiguous booleans become bool, multi-element collections never collapse, a fixed-length "
+        "tuple given extra items is rejected (C12_ndl_tuple_excess_rejected) and so is an unknown key under addition=False, which "
+        "Options derives from no_data_loss (C12_unknown_key_rejected); under "
         "no_explicit_cast conversions stay inside the primitive group apart from Decimal<-str (C12_nec_same_group).",
    note="Trusted: as C01 (Model/Conv.v tied by the convert-grid correspondence suite). Partial: date/time/uuid/enum/complex "
-        "targets, strict bytes decoding, tuple excess and unknown-key rejection under the flags are judged by the flag oracle on the "
-        "implementation, not proved.",
+        "targets and strict bytes decoding are judged by the flag oracle on the implementation, not proved; outside the model the oracle "
+        "compares each flagged parse with the unflagged one (the statement's comparison), inside it the full flag lattice.",
    technique="Coq proofs by case analysis over the converter models + correspondence grid and flag-lattice oracle", design="§8 C12")
 CLAIMED["C05"] = dict(
    text="Machine-checked proof (Coq): an executable per-field contract (Spec/FieldSpec.v: which keys feed a field, absence / default, "
